@@ -379,7 +379,9 @@ def o8(h, st):
         h1 = [x.astype(float) for x in h1]
         g = [x.astype(float) for x in g]
     before = (snapshot([x.tolist() for x in h1]), snapshot([x.tolist() for x in g]))
-    dummy = type("M", (), {})()
+    # a real (uninitialised) instance, so that helper methods the function may delegate to resolve through the class; the function reads no attribute of it
+    from tangelo.toolboxes.molecular_computation.molecule import SecondQuantizedMolecule as _SQM
+    dummy = _SQM.__new__(_SQM)
     c1, h1n, gn = h.call(ML, "SecondQuantizedMolecule._get_active_space_integrals_uhf", dummy, c0, h1, g, [list(Fa), list(Fb)], [list(Aa), list(Ab)])
     h.check("input integral arrays unchanged", (snapshot([x.tolist() for x in h1]), snapshot([x.tolist() for x in g])) == before)
     h.check("shapes of the folded integrals", h1n[0].shape == (len(Aa),) * 2 and h1n[1].shape == (len(Ab),) * 2 and gn[0].shape == (len(Aa),) * 4
